@@ -7,7 +7,7 @@
 (* so that known findings and new violations can be told apart) and the    *)
 (* trace is accepted when every line has been consumed.                    *)
 (***************************************************************************)
-EXTENDS Zapx, Json, IOUtils
+EXTENDS Zapx, ZapLayout
 
 Trace == ndJsonDeserialize(IOEnv.TRACE)
 
@@ -122,15 +122,22 @@ CheckFooter(c, foot) ==
   \cup IfBad(foot.mode # c.mode, <<"footer-chunkmode", foot.mode>>)
   \cup IfBad(foot.ver # 16, <<"footer-version", foot.ver>>)
 
+\* independent decoding of a small file by the layout specification (enabled by the environment: C09, C04)
+LayoutBad(c, bytes, path) ==
+  IF IOEnv.LAYOUT = "1" /\ bytes # <<>> THEN DiffLayout(c, bytes, path) ELSE {}
+
 TrPersist ==
   /\ IsEv("persist")
   /\ IF Ev.err THEN UNCHANGED <<segs, files, lcm>> ELSE Persist(Ev.sid, Ev.file)
-  /\ Step("persist",
-       IF Ev.err THEN {<<"persist-error">>}
-       ELSE IfBad(~Ev.exists, <<"no-file">>)
-            \cup IfBad(~Ev.same \/ Ev.wn # Ev.flen, <<"writeto-differs">>)
-            \cup IfBad(~Ev.crcok, <<"crc">>)
-            \cup (IF Ev.exists THEN CheckFooter(segs[Ev.sid].c, Ev.foot) ELSE {}))
+  /\ LET PersistBad ==
+           IF Ev.err THEN {<<"persist-error">>}
+           ELSE IfBad(~Ev.exists, <<"no-file">>)
+                \cup IfBad(~Ev.same \/ Ev.wn # Ev.flen, <<"writeto-differs">>)
+                \cup IfBad(~Ev.crcok, <<"crc">>)
+                \cup (IF Ev.exists THEN CheckFooter(segs[Ev.sid].c, Ev.foot) ELSE {})
+     IN  nbad' = nbad + Report("persist", PersistBad)
+                      + Report("layout", IF Ev.err THEN {} ELSE LayoutBad(segs[Ev.sid].c, Ev.bytes, Ev.path))
+  /\ l' = l + 1
 
 TrOpen ==
   /\ IsEv("open")
@@ -153,9 +160,10 @@ TrMerge ==
      THEN UNCHANGED <<segs, files, lcm>>
           /\ Step(tag, IfBad(~Ev.engine \/ Ev.panic # "", <<"merge-error", Ev.err, Ev.panic>>) \cup IfBad(Ev.exists, <<"file-left">>))
      ELSE /\ Merge(Ev.file, Ev.ins, Ds, Ev.mode)
-          /\ Step(tag,
-               IfBad(Ev.maps # MergedMaps(cs, Ds), <<"maps", Ev.maps>>)
-               \cup IfBad(~Ev.exists \/ Ev.size # Ev.flen, <<"size", Ev.size, Ev.flen>>))
+          /\ l' = l + 1
+          /\ nbad' = nbad + Report(tag, IfBad(Ev.maps # MergedMaps(cs, Ds), <<"maps", Ev.maps>>)
+                                         \cup IfBad(~Ev.exists \/ Ev.size # Ev.flen, <<"size", Ev.size, Ev.flen>>))
+                           + Report("layout", LayoutBad(MergeResult(Ev.ins, Ds, Ev.mode), Ev.bytes, Ev.path))
 
 \* random doc-value visits with one reused visit state (also across segments)
 TrDvWalk ==
@@ -185,6 +193,14 @@ TrEngFail ==
                       \cup IfBad(Ev.exists, <<"file-left-after-engine-failure", Ev.kind, Ev.op, Ev.n, Ev.class>>)
                       \cup IfBad(Ev.leaked # 0, <<"native-index-leaked", Ev.kind, Ev.op, Ev.n, Ev.leaked, Ev.class>>))
 
+\* frozen corpus: the inputs that produced a frozen file are replayed in the specification only
+\* (no call of the current code, nothing to compare); the files are then opened by the current code
+TrFrozen ==
+  \/ IsEv("fbuild") /\ Build(Ev.sid, Ev.batch, Ev.mode) /\ Step("frozen", {})
+  \/ IsEv("fpersist") /\ Persist(Ev.sid, Ev.file) /\ Step("frozen", {})
+  \/ IsEv("fopen") /\ Open(Ev.sid, Ev.file) /\ Step("frozen", {})
+  \/ IsEv("fmerge") /\ Merge(Ev.file, Ev.ins, [i \in 1..Len(Ev.drops) |-> DropSet(Ev.drops[i])], Ev.mode) /\ Step("frozen", {})
+
 \* informational records of the harness (pool residue, garbage collection): no specification step
 TrNote == IsEv("note") /\ UNCHANGED <<segs, files, lcm>> /\ Step("note", {})
 
@@ -195,7 +211,7 @@ TrClose ==
 
 TrEnd == l = Len(Trace) + 1 /\ l' = l + 1 /\ PrintT(<<"ACCEPTED", Len(Trace), nbad>>) /\ UNCHANGED <<segs, files, lcm, nbad>>
 
-TraceNext == TrEngFail \/ TrObs \/ TrNote \/ TrDvWalk \/ TrReset \/ TrBuild \/ TrBuildFail \/ TrPersist \/ TrOpen \/ TrMerge \/ TrClose \/ TrEnd
+TraceNext == TrFrozen \/ TrEngFail \/ TrObs \/ TrNote \/ TrDvWalk \/ TrReset \/ TrBuild \/ TrBuildFail \/ TrPersist \/ TrOpen \/ TrMerge \/ TrClose \/ TrEnd
 
 TraceSpec == TraceInit /\ [][TraceNext]_traceVars
 
